@@ -33,7 +33,7 @@ def c03_shapes(tier):
     # (strategy, breakers, buckets, depth, retry class, -, -, full chain)
     if tier == 'quick':
         out = [(st, 1, 1, 5, 0, 0, 0, 0) for st in (0, 1, 2)]
-        out += [(1, 2, 1, 4, 0, 0, 0, 0), (0, 1, 2, 4, 1, 0, 0, 0), (2, 1, 2, 6, 0, 0, 0, 0), (2, 1, 1, 3, 0, 0, 0, 1)]
+        out += [(1, 2, 1, 4, 0, 0, 0, 0), (0, 1, 2, 4, 1, 0, 0, 0), (2, 1, 2, 6, 0, 2, 1, 0), (2, 1, 1, 3, 0, 0, 0, 1)]
         return out
     out = []
     for st in (0, 1, 2):
@@ -43,6 +43,8 @@ def c03_shapes(tier):
         out.append((st, 2, 1, 5, 0, 0, 0, 0))
         out.append((st, 2, 2, 5, 1, 0, 0, 0))
         out.append((st, 1, 1, 4, 0, 0, 0, 1))
+        out.append((st, 1, 2, 6, 0, 2, 1, 0))
+        out.append((st, 1, 2, 7, 0, 2, 1, 0))
     return out
 
 def c11_shapes(tier):
@@ -53,14 +55,15 @@ def c11_shapes(tier):
         for k in kinds:
             out.append((k, 1, 1, 1, 1, 0, 1, 0))
             out.append((k, 0, 1, 1, 1, 0, 1, 0))
-        out += [(0, 1, 2, 1, 0, 1, 1, 0), (4, 1, 2, 1, 0, 1, 1, 0), (7, 1, 2, 1, 0, 0, 1, 0), (1, 1, 1, 1, 0, 0, 1, 1)]
+        out += [(0, 1, 2, 1, 0, 1, 1, 0), (4, 1, 2, 1, 0, 1, 1, 0), (7, 1, 2, 1, 0, 0, 1, 0), (1, 1, 1, 1, 0, 0, 1, 1), (3, 1, 2, 2, 0, 0, 1, 0)]
         return out
     for k in kinds:
         for pr in (0, 1):
             out.append((k, pr, 2, 2, 1, 0, 1, 0))
             out.append((k, pr, 1, 1, 1, 0, 2, 0))
         out.append((k, 1, 1, 1, 0, 0, 1, 1))
-    out += [(0, 1, 3, 2, 0, 1, 1, 0), (4, 0, 3, 2, 0, 1, 1, 0), (7, 1, 3, 2, 1, 0, 1, 0), (7, 0, 2, 3, 0, 0, 1, 0)]
+    out += [(0, 1, 3, 2, 0, 1, 1, 0), (4, 0, 3, 2, 0, 1, 1, 0), (7, 1, 3, 2, 1, 0, 1, 0), (7, 0, 2, 3, 0, 0, 1, 0),
+            (3, 1, 2, 2, 1, 0, 1, 0), (3, 0, 2, 2, 0, 0, 1, 0), (3, 1, 3, 2, 0, 0, 1, 0)]
     return out
 
 def c05h_shapes(tier):
@@ -262,11 +265,11 @@ PROPS = {
     'C11': {
         'level': 'model_checking',
         'bounds': 'twin construction: resources A and B carry equal rule pairs (a main rule of the kind under test with threshold 1-2 plus a wide side rule) and receive identical traffic at the same virtual instants; '
-                  'kinds: flow reject on the resource window, flow reject on a private 700 ms window, flow throttling, hotspot QPS reject, hotspot throttling, hotspot concurrency, circuit breaker (error count 1, retry 400 ms); '
+                  'kinds: flow reject on the resource window, flow reject on a private 700 ms window, flow throttling, flow warm-up (4 per second, period 1 s, gaps from {0, 400, 1000} ms), hotspot QPS reject, hotspot throttling, hotspot concurrency, circuit breaker (error count 1, retry 400 ms); '
                   '1-2 (quick) / up to 3 traffic steps before and 1-3 after a reload of A as freshly built equal rules with other ids in reversed order, through load-for-resource or through load-all with a new resource C in the same call; '
                   'symbolic gaps of 0-600 ms between steps, admitted pairs exit, exit with an error (breaker) or stay in flight (concurrency) by symbolic choice; finally A\'s main rule is changed and must decide the very next entry; '
                   'hash-container iteration orders: at most 1 (thorough: 2) iterations per run deviate from insertion order, every placement explored',
-        'assumptions': ['virtual clock', 'chains of the slots the kind exercises; one shape per tier with the complete global chain', 'warm-up rules are not driven across a reload (their float arithmetic concretises the clock); their reuse logic is the same code path as the other flow rules'],
+        'assumptions': ['virtual clock', 'chains of the slots the kind exercises; one shape per tier with the complete global chain', 'warm-up rules are driven with gaps from a three-element set (their refill arithmetic concretises the elapsed time)'],
         'scenarios': [
             {'name': 'c11_reload', 'shapes': {'quick': c11_shapes('quick'), 'thorough': c11_shapes('thorough')},
              'witnesses': ['reloaded', 'blocked', 'changed'], 'selftest': {'quick': 8, 'thorough': 30}},
@@ -377,7 +380,7 @@ PROPS = {
     'C03': {
         'level': 'model_checking',
         'bounds': 'strategies slow-ratio/error-ratio/error-count; 1-2 breakers on one resource (second with doubled retry timeout); 1-2 window buckets of a 1000 ms window; '
-                  'retry timeout 400 ms (shorter than the window) or 1500 ms (longer); event depth 3-6 (quick) / 4-6 (thorough) over {enter, complete oldest ok, complete oldest with error}, '
+                  'retry timeout 400 ms (shorter than the window) or 1500 ms (longer); event depth 3-5, plus depth 6-7 with the second event scripted (first entry fails), count threshold 1, min_request_amount <= 1 and gaps <= 600 ms, over {enter, complete oldest ok, complete oldest with error}, '
                   'each preceded by a symbolic time advance in [0, max(1000, retry)+100] ms; min_request_amount in [0,3]; ratio thresholds from {0,1/4,1/3,1/2,2/3,3/4,1}, count thresholds in [0,4]; max_allowed_rt 100 ms',
         'assumptions': ['virtual clock', 'breaker consultation order is read back from get_breakers_of_resource',
                         'a probe rejected by another breaker returns to Open without a new retry time (as the property states only the return to Open)'],
